@@ -31,6 +31,7 @@ COMPLEX = [
     ("max(len({f} or ''), 3)", None), ("[{f}, {g}][0]", "[{f}, {g}][0]"), ("{{'k': {f}, 'z': [1, 2]}}['k']", None), ("'x,y'", "'x,y'"),
     ('"a, (b"', '"a, (b"'), ("({f}, {g})", None), ("'{{}},{{}}'.format({f}, NR)", None), ("str({f})[1:]", None), ("[{f}, ({g}, 'q]')]", None),
     ("len([{f}, {g}, NR])", "[{f}, {g}, NR].length"), ("({f} or '') + ', as z'", "({f} || '') + ', as z'"), ("NR + 1", "NR + 1"), ("-NR", "-NR"),
+    ("math.pi", None), ("os.sep", None), ("NR.real", None), ("math.e", None), ("({f} or 'x').upper", None), ("datetime.MAXYEAR", None),
     ("({f} or 'x').upper()", None), ("{f} or 'n/a'", "{f} || 'n/a'"), ("not {f}", "!{f}"), ("{f} and {g}", "{f} && {g}"), ("lambda: {f}", None), ("{f} == {g} or NR > 1", "{f} == {g} || NR > 1"), ("[1, 2, 3]", "[1, 2, 3]"), ("None", "null"), ("{f} if NR % 2 else {g}", None), ("(lambda t, u: t)({f}, 1)", None),
 ]
 
